@@ -58,13 +58,13 @@ def _service_entry_points(ctx, program):
             coro = defs[-1] if defs else coro
         if not isinstance(coro, ast.Call):
             raise AnalysisError(f"{huid}: the coroutine handed to Function.create_task could not be resolved (`{short(starts[0])}`)")
-        nested = {s.name: s for s in ast.walk(h) if isinstance(s, (ast.FunctionDef, ast.AsyncFunctionDef)) and s is not h}
+        cu = program.resolve_callable(program.unit(huid), coro.func)  # nested in the handler, in an enclosing factory, a method or a module-level coroutine
         cname = call_name(coro)
-        if cname in nested:
-            user = sorted({call_name(n) for n in body_walk(nested[cname]) if isinstance(n, ast.Call) and (call_name(n) or "").endswith(".call")})
+        if cu is not None and isinstance(cu.node, ast.AsyncFunctionDef):
+            user = sorted({call_name(n) for n in body_walk(cu.node) if isinstance(n, ast.Call) and (call_name(n) or "").endswith(".call")})
             if not user:
                 raise AnalysisError(f"{huid}.{cname}: no call of the script function found")
-            found[f"{huid}.{cname}"] = user
+            found[cu.uid] = user
         else:
             ctx.fail("R18.1", huid, "the run's coroutine contains the function's exceptions",
                      f"{huid}: the task of a service run is started directly on `{short(coro)}`: an exception of the script function reaches only run_coro's catch-all, which reports it on the "
@@ -77,7 +77,13 @@ def run(ctx):
     ctx.rule("R18.1", "an exception raised by user code cannot leave the infrastructure entry point; it is logged through the script's logger", floor=10)
     entry_points = dict(ENTRY_POINTS)
     entry_points.update(_service_entry_points(ctx, program))
-    for uid, labels in entry_points.items():
+    work = list(entry_points.items())
+    done = set()
+    while work:
+        uid, labels = work.pop(0)
+        if uid in done:
+            continue
+        done.add(uid)
         f = program.func(uid)
         # the table names the user-code calls by method (the receiver's variable name is free to change)
         present = {call_name(n) for n in body_walk(f) if isinstance(n, ast.Call)} - {None}
@@ -86,9 +92,27 @@ def run(ctx):
             meth = l.split(".")[-1]
             hits = sorted(p for p in present if p == l) or sorted(p for p in present if p.split(".")[-1] == meth and "." in p)
             if not hits:
-                raise AnalysisError(f"{uid}: user-code call(s) [{l!r}] not found - the entry point table no longer matches the code")
+                # the call was moved into a helper of the same class / module: the helper is then the entry point that has to contain the exception
+                moved = []
+                for n in body_walk(f):
+                    if isinstance(n, ast.Call) and isinstance(n.func, (ast.Name, ast.Attribute)):
+                        hu = program.resolve_callable(program.unit(uid), n.func)
+                        if hu is not None and isinstance(hu.node, (ast.FunctionDef, ast.AsyncFunctionDef)) and hu.uid != uid:
+                            inner = sorted({call_name(m) for m in body_walk(hu.node) if isinstance(m, ast.Call) and (call_name(m) or "").split(".")[-1] == meth and "." in (call_name(m) or "")})
+                            if inner:
+                                moved.append((hu.uid, inner))
+                if not moved:
+                    raise AnalysisError(f"{uid}: user-code call(s) [{l!r}] not found - the entry point table no longer matches the code")
+                for huid, inner in moved:
+                    if huid in entry_points or huid in done:
+                        continue
+                    work.append((huid, inner))
+                continue
             resolved.extend(hits)
         labels = list(dict.fromkeys(resolved))
+        if not labels:
+            ctx.ok("R18.1", uid, "user-code calls of this entry point are made (and contained) in a helper that is an entry point of its own")
+            continue
         pol = FlowPolicy(program, events=[lambda l: l if l and l.split(".")[-1] in LOGGERS else None], may_raise_all=False, cancel=False,
                          locals_={"self", "cls"}, record_atoms=False)
         pol.raising_labels = set(labels)
